@@ -73,6 +73,8 @@ def gen_case(rng, tier, index):
             a["nfiles"] = rng.choice([1, 1, 2, 4])
         if k == "upload":
             a["nofail"] = rng.random() < 0.2
+        if k == "mirror":
+            a["nofail"] = rng.random() < 0.5
         actors.append(a)
     faults = []
     mode = rng.choice(["none", "none", "kill", "errno", "mixed", "enum"])
@@ -239,7 +241,7 @@ def act_mirror(root, a, stride, rounds):
     src = LocalArchive({"backend": "file", "path": os.path.join(root, "src", a["name"])})
     src.wantDownloadLocal(True)
     cache = LocalArchive({"backend": "file", "path": os.path.join(root, "arch"),
-                          "flags": ["download", "upload", "cache"]})
+                          "flags": ["download", "upload", "cache"] + (["nofail"] if a.get("nofail") else [])})
     def go(r):
         out = os.path.join(root, "out", "%s.%d" % (a["name"], r))
         os.makedirs(out)
